@@ -173,3 +173,6 @@ C15 = Prop(
     known={"U2": known_u2, "U3": known_u3, "U4": known_u4},
 )
 C15.model_input = model_input
+
+C15.rule += (" Every case is also written to targets that accept n bytes and then fail (24 cut points, silently and with exceptions(badbit|failbit)): what "
+             "arrived is a prefix of the text and the next request gives the whole text again.")
